@@ -66,14 +66,15 @@ type HistEvent struct {
 
 // RunResult is printed by the child as one JSON line.
 type RunResult struct {
-	Results  []string        `json:"results"` // per task: normalised result or "ERR: ..."
-	History  []HistEvent     `json:"history"`
-	Steps    int             `json:"steps"`
-	Switches int             `json:"switches"`
-	Deadlock string          `json:"deadlock,omitempty"`
-	Panics   map[int]string  `json:"panics,omitempty"`
-	TraceSum string          `json:"trace_sum"`
-	Trace    []simsched.Step `json:"trace,omitempty"`
+	Results     []string        `json:"results"` // per task: normalised result or "ERR: ..."
+	History     []HistEvent     `json:"history"`
+	Steps       int             `json:"steps"`
+	Switches    int             `json:"switches"`
+	Deadlock    string          `json:"deadlock,omitempty"`
+	Panics      map[int]string  `json:"panics,omitempty"`
+	TraceSum    string          `json:"trace_sum"`
+	StatePoints int             `json:"state_points"` // scheduling points inside the module (accesses to mutated package state)
+	Trace       []simsched.Step `json:"trace,omitempty"`
 }
 
 var corpus = []string{"test.pdf", "zineTest.pdf", "testRot.pdf", "bookletTestA6.pdf"}
@@ -319,7 +320,7 @@ func runSchedule(spec RunSpec, pool string, first bool) (*RunResult, int) {
 		s.SetPCT(spec.PCTDepth, spec.PCTHorizon)
 	}
 	s.Run()
-	res := RunResult{Steps: s.Steps(), Switches: s.Switches, Deadlock: s.Deadlock, Panics: map[int]string{}}
+	res := RunResult{Steps: s.Steps(), Switches: s.Switches, Deadlock: s.Deadlock, Panics: map[int]string{}, StatePoints: s.StatePoints}
 	for id, p := range s.Panics() {
 		res.Panics[id] = fmt.Sprint(p)
 	}
@@ -954,6 +955,26 @@ func (c40) RunUnit(raw core.Unit, tier string, seed int64) core.UnitResult {
 		if !spec.Preload {
 			res.Probes["lazy_first_load_races_with_lookups"]++
 		}
+		// which kinds of schedule / disturbance really ran
+		if spec.PCTDepth > 0 {
+			res.FaultFired[fmt.Sprintf("schedule-pct-depth-%d", spec.PCTDepth)]++
+		} else {
+			res.FaultFired["schedule-coin"]++
+		}
+		for _, e := range conc.History {
+			switch e.Op {
+			case "disk":
+				res.FaultFired["font-file-replaced-or-removed"]++
+			case "reload":
+				res.FaultFired["font-reload"]++
+			case "read":
+				res.EventsSeen["font_program_reads"]++
+			}
+		}
+		for _, st := range conc.Trace {
+			_ = st
+		}
+		res.EventsSeen["state_points"] += conc.StatePoints
 		for _, t := range spec.Tasks {
 			if t.Kind == "installer" {
 				res.Probes["schedules_with_installer"]++
